@@ -235,7 +235,7 @@ func (p *parser) parseH(line string) error {
 		if year < 70 {
 			p.year = 2000 + year
 		} else {
-			p.year = 1970 + year
+			p.year = 1900 + year
 		}
 	}
 	return nil
